@@ -3,4 +3,4 @@ From LP Require Import Num Gen_C17_Formulas C17_Model.
 Extraction Language OCaml.
 Extraction "C17_m.ml" g_Sign g_Sign2 g_StepFunction g_Relative_Difference g_Floats_Equal
   g_VSH_Y_Component g_VSH_Psi_Component round round_list round_table round_run dawson erfi inv_erf_lib
-  vector_spherical_harmonics_Y vector_spherical_harmonics_Psi special_run daw_table0 Z.of_nat Z.to_nat.
+  vector_spherical_harmonics_Y vector_spherical_harmonics_Psi vsh_run_x special_run daw_table0 Z.of_nat Z.to_nat.
